@@ -13,6 +13,7 @@ import (
 	"strings"
 	"sync"
 	"time"
+	"unicode/utf8"
 
 	"github.com/go-kit/log"
 	"github.com/go-kit/log/level"
@@ -1479,6 +1480,13 @@ func (m *KV) NotifyMsg(msg []byte) {
 		return
 	}
 
+	if !utf8.ValidString(kvPair.Key) {
+		// Keys are used as metric label values, which must be valid UTF-8 (otherwise the Prometheus client panics).
+		level.Warn(m.logger).Log("msg", "received an invalid KV Pair (key is not valid UTF-8)")
+		m.numberOfInvalidReceivedMessages.Inc()
+		return
+	}
+
 	codec := m.GetCodec(kvPair.GetCodec())
 	if codec == nil {
 		m.numberOfInvalidReceivedMessages.Inc()
@@ -1750,6 +1758,12 @@ func (m *KV) MergeRemoteState(data []byte, _ bool) {
 		}
 
 		data = data[kvPairLength:]
+
+		if !utf8.ValidString(kvPair.Key) {
+			// Keys are used as metric label values, which must be valid UTF-8 (otherwise the Prometheus client panics).
+			level.Error(m.logger).Log("msg", "failed to parse remote state: key is not valid UTF-8")
+			continue
+		}
 
 		codec := m.GetCodec(kvPair.GetCodec())
 		if codec == nil {
